@@ -35,6 +35,7 @@ var (
 	IntS    = &Sort{Kind: SInt}
 	StringS = &Sort{Kind: SString}
 	StrU    = &Sort{Kind: SUninterp, Name: "Str"}
+	ReS     = &Sort{Kind: SUninterp, Name: "RegLan"}
 	BV32S   = &Sort{Kind: SBV, W: 32}
 	BV64S   = &Sort{Kind: SBV, W: 64}
 )
@@ -752,7 +753,7 @@ func (d *decls) noteSort(s *Sort) {
 		if s.Kind == SString {
 			d.hasStr = true
 		}
-		if s.Kind == SUninterp {
+		if s.Kind == SUninterp && s.Name == "Str" {
 			d.hasStrU = true
 		}
 		if s.Kind == SArray {
@@ -845,4 +846,10 @@ func nameBig(t *Term) *Term {
 		return Def(freshName("t"), t)
 	}
 	return t
+}
+
+// StrAllChars: every character of s is the one-character string c (c a literal).
+func StrAllChars(s *Term, c string) *Term {
+	re := mk("re.*", ReS, mk("str.to_re", ReS, StrLit(c)))
+	return mk("str.in_re", BoolS, s, re)
 }
